@@ -1263,14 +1263,23 @@ impl<'a> Run<'a> {
                 // still in flight (or succeeded) when this dial starts?
                 let w = self.w.lock();
                 let da = &w.dials[a];
-                let ok_or_running = match da.state {
-                    AsyncState::Pending | AsyncState::Ok => true,
-                    AsyncState::Taken => match da.hs {
-                        Some(h) => !matches!(w.hss[h].state, AsyncState::Failed | AsyncState::Dropped),
-                        None => true,
-                    },
-                    _ => false,
-                };
+                let dead_on_arrival = da
+                    .conn
+                    .map(|c| match (w.conns[c].close_step, w.conns[c].taken_step) {
+                        (Some(cs), Some(ts)) => cs <= ts,
+                        (Some(_), None) => true,
+                        _ => false,
+                    })
+                    .unwrap_or(false);
+                let ok_or_running = !dead_on_arrival
+                    && match da.state {
+                        AsyncState::Pending | AsyncState::Ok => true,
+                        AsyncState::Taken => match da.hs {
+                            Some(h) => !matches!(w.hss[h].state, AsyncState::Failed | AsyncState::Dropped),
+                            None => true,
+                        },
+                        _ => false,
+                    };
                 let a_start = da.start_step;
                 let a_owner = da.owner;
                 drop(w);
@@ -1397,6 +1406,12 @@ impl<'a> Run<'a> {
             let max_idle = self.case.cfg.max_idle;
             let mut found = None;
             for (o, retained) in per_origin {
+                // right after a cancel a connection may be travelling back to the pool inside a
+                // dropped waiter channel (held by a hand-back task that has not run yet)
+                let oi = self.case.cfg.origins.iter().position(|u| u.parse::<http::Uri>().map(|u| origin_of(&u) == o).unwrap_or(false));
+                if oi.map(|i| self.dirty_since_cancel[i]).unwrap_or(false) {
+                    continue;
+                }
                 let waiting = self
                     .reqs
                     .iter()
